@@ -3246,31 +3246,57 @@ func ruleDirectStatusFirst(c *Ctx) {
 // flips is taken; the set of flip points per function must be the borders of
 // the table. `status > 300` flips at 301: a status of exactly 300 is then no
 // redirect and goes out as an error without Location.
-var statusTable = []struct {
+type flipRow struct {
 	fn     string
 	flips  []int64
-	status string // "param" or the field read
-}{
+	status string // "param", "len(param)" or the field read
+}
+
+var lengthTable = []flipRow{
+	{"codec.IsValidRIDPart", []int64{1}, "len(param)"},
+}
+
+var statusTable = []flipRow{
 	{"server.httpStatusResponse", []int64{300, 400}, "param"},
 	{"(*codec.Meta).IsDirectResponseStatus", []int64{300, 600}, "codec.Meta.Status"},
 	{"(*codec.Meta).IsValidStatus", []int64{300, 600}, "codec.Meta.Status"},
 	{"server.statusError", []int64{400, 500, 600}, "param"},
 }
 
-func ruleStatusClasses(c *Ctx) {
+func ruleStatusClasses(c *Ctx) { ruleFlipPoints(statusTable, "a meta status is sorted into its class at the class borders", "a status on the border is answered as a member of the neighbouring class")(c) }
+
+// TABLE/part-nonempty (C14): a part of a resource id is valid only if it is not empty — the length test of
+// IsValidRIDPart flips between 0 and 1. An empty method name would make the subject "call.<resource>.".
+func rulePartNonEmpty(c *Ctx) {
+	ruleFlipPoints(lengthTable, "the empty part is no valid part of a resource id", "the empty string passes as a part: a call with an empty method is sent on the subject call.<resource>. (trailing dot)")(c)
+}
+
+func ruleFlipPoints(table []flipRow, what, consequence string) func(c *Ctx) {
+	return func(c *Ctx) { flipPoints(c, table, what, consequence) }
+}
+
+func flipPoints(c *Ctx, table []flipRow, what, consequence string) {
 	p := c.P
-	for _, row := range statusTable {
+	for _, row := range table {
 		fn := p.Fn(row.fn)
 		if fn == nil {
 			c.undecided(row.fn, "anchor", "-", "not found")
 			continue
 		}
 		var fStatus *types.Var
-		if row.status != "param" {
+		if row.status != "param" && row.status != "len(param)" {
 			fStatus = p.Field(row.status)
 		}
 		isStatus := func(v ssa.Value) bool {
 			v = stripConv(v)
+			if row.status == "len(param)" {
+				cl, ok := v.(*ssa.Call)
+				if !ok || !isBuiltinNamed(cl, "len") || len(cl.Call.Args) != 1 {
+					return false
+				}
+				_, isP := cl.Call.Args[0].(*ssa.Parameter)
+				return isP
+			}
 			if fStatus == nil {
 				prm, ok := v.(*ssa.Parameter)
 				if !ok {
@@ -3356,7 +3382,7 @@ func ruleStatusClasses(c *Ctx) {
 			}
 		}
 		sort.Strings(got)
-		c.check(bad == "", row.fn, "a meta status is sorted into its class at the class borders ("+strings.Join(want, ", ")+")", p.Pos(fn.Pos()), "comparisons flip at "+strings.Join(got, ", "), bad+": a status on the border is answered as a member of the neighbouring class")
+		c.check(bad == "", row.fn, what+" ("+strings.Join(want, ", ")+")", p.Pos(fn.Pos()), "comparisons flip at "+strings.Join(got, ", "), bad+": "+consequence)
 	}
 }
 
@@ -3827,4 +3853,83 @@ func madeHere(v ssa.Value, depth int) bool {
 		}
 	}
 	return false
+}
+
+// ---------------------------------------------------------------------------
+// DOM/descending-complete (C14, C16): a loop that walks a sequence from its
+// last element down (i := len(x)-1; …; i--) and reads x[i] goes on for i == 0:
+// its condition, evaluated with the counter at 0, keeps the loop running. A
+// condition `i > 0` leaves the first element out — for the parts of an HTTP
+// path: the first part is neither unescaped nor validated.
+func ruleDescendingComplete(c *Ctx) {
+	p := c.P
+	n := 0
+	for _, fn := range p.Repo {
+		if !inScopePkgs(fn, "server", "rescache", "codec", "rpc") {
+			continue
+		}
+		for _, hb := range fn.Blocks {
+			i := blockIf(hb)
+			body := loopBody(hb)
+			if i == nil || len(body) == 0 {
+				continue
+			}
+			x, op, k, ok := cmpConst(i.Cond)
+			if !ok {
+				continue
+			}
+			phi, ok := stripConv(x).(*ssa.Phi)
+			if !ok || phi.Block() != hb {
+				continue
+			}
+			// descending from len(s)-1
+			var seq ssa.Value
+			desc := false
+			for _, e := range phi.Edges {
+				b, ok := stripConv(e).(*ssa.BinOp)
+				if !ok || b.Op != token.SUB {
+					continue
+				}
+				if kk, isK := constInt(b.Y); !isK || kk != 1 {
+					continue
+				}
+				if stripConv(b.X) == ssa.Value(phi) {
+					desc = true
+				} else if cl, ok := stripConv(b.X).(*ssa.Call); ok && isBuiltinNamed(cl, "len") {
+					seq = cl.Call.Args[0]
+				}
+			}
+			if !desc || seq == nil {
+				continue
+			}
+			// the counter indexes that sequence in the body
+			reads := false
+			for b := range body {
+				for _, in := range b.Instrs {
+					switch y := in.(type) {
+					case *ssa.IndexAddr:
+						if stripConv(y.Index) == ssa.Value(phi) {
+							reads = true
+						}
+					case *ssa.Index:
+						if stripConv(y.Index) == ssa.Value(phi) {
+							reads = true
+						}
+					}
+				}
+			}
+			if !reads {
+				continue
+			}
+			n++
+			c.inst(1)
+			stay := body[hb.Succs[0]]
+			at0, _ := evalIntCmp(op, 0, k)
+			c.check(at0 == stay, fnName(fn), "a walk from the last element down includes the first element", p.InstrPos(i), "the loop condition keeps the loop running at index 0",
+				"the loop ends before index 0: the first element is left out (for an HTTP path: the first part is neither unescaped nor validated)")
+		}
+	}
+	if n == 0 {
+		c.note("no descending walk over a sequence")
+	}
 }
